@@ -8,8 +8,10 @@
    Invariants: the reader never meets a link whose target it has not seen (LinkTargetKnown);
    when both are done the result is equivalent to Expected(cset), inode groups as partitions
    (RoundTrip) and equals the declarative ReadArchive (ReaderIsReadArchive).
-   Variant "nolink" (every file written with its own data) is the vacuity guard: TLC must
-   report RoundTrip violated (the groups fall apart).                                          *)
+   Vacuity guards, TLC must report RoundTrip violated for both: variant "nolink" (every file
+   written with its own data: the groups fall apart) and variant "inokey" (the table of stored
+   files keyed by the inode NUMBER only: a group on a second device with a colliding number is
+   stored as separate copies once the first device occupies the slot).                          *)
 EXTENDS TarRoundTrip_Universe, TLC
 CONSTANTS Variant, MaxEntries
 
@@ -19,13 +21,18 @@ vars == <<cset, todo, arch, seen, phase, rpos, cache, raw>>
 Init == /\ cset \in SmallSets(MaxEntries)
         /\ todo = cset /\ arch = <<>> /\ seen = {} /\ phase = "write" /\ rpos = 0 /\ cache = {} /\ raw = {}
 
+\* the writer's table of files already stored:  key -> first entry written under that key
+\* (dict.setdefault).  The key is <<dev, ino>>; variant "inokey" keys by the inode number alone.
+KeyOf(e) == IF Variant = "inokey" THEN <<0, e.ino>> ELSE <<e.dev, e.ino>>
 Emit(e) ==
-    LET hit == {x \in seen : e.type = "file" /\ e.ino # 0 /\ x[1] = e.ino} IN
+    LET hit == {x \in seen : e.type = "file" /\ x.key = KeyOf(e)}
+        \* _can_be_hardlinked: same device, same inode, inode known (attributes agree: GroupsConsistent)
+        link == hit # {} /\ Variant # "nolink" /\ SameInode(e, (CHOOSE x \in hit : TRUE).ent) IN
     /\ todo' = todo \ {e}
-    /\ IF hit # {} /\ Variant # "nolink"
-       THEN /\ arch' = Append(arch, Member(e, "lnk", (CHOOSE x \in hit : TRUE)[2])) /\ seen' = seen
+    /\ IF link
+       THEN /\ arch' = Append(arch, Member(e, "lnk", (CHOOSE x \in hit : TRUE).ent.path)) /\ seen' = seen
        ELSE /\ arch' = Append(arch, Member(e, KindOf(e), <<>>))
-            /\ seen' = IF e.type = "file" /\ e.ino # 0 /\ hit = {} THEN seen \cup {<<e.ino, e.path>>} ELSE seen
+            /\ seen' = IF e.type = "file" /\ hit = {} THEN seen \cup {[key |-> KeyOf(e), ent |-> e]} ELSE seen
 WriteStep == /\ phase = "write" /\ todo # {}
              /\ \E e \in todo : /\ (e.type # "dir" => \A d \in todo : d.type # "dir")
                                 /\ Emit(e)
@@ -42,8 +49,8 @@ ReadStep ==
        ELSE LET ino == IF m.kind = "lnk" THEN (CHOOSE x \in CacheGet(m.link) : TRUE)[2]
                        ELSE IF m.kind = "reg" THEN rpos + 1 ELSE 0
                 ent == IF m.kind \in {"reg", "lnk"}
-                       THEN [m.ent EXCEPT !.path = m.name, !.type = "file", !.ino = ino, !.cid = arch[ino].ent.cid]
-                       ELSE [m.ent EXCEPT !.path = m.name, !.type = m.kind, !.ino = 0]
+                       THEN [m.ent EXCEPT !.path = m.name, !.type = "file", !.dev = 1, !.ino = ino, !.cid = arch[ino].ent.cid]
+                       ELSE [m.ent EXCEPT !.path = m.name, !.type = m.kind, !.dev = 0, !.ino = 0]
             IN /\ rpos' = rpos + 1
                /\ cache' = IF m.kind \in {"reg", "lnk"} THEN (cache \ CacheGet(m.name)) \cup {<<m.name, ino>>} ELSE cache
                /\ raw' = {x \in raw : x.path # m.name} \cup {ent}
